@@ -11,7 +11,13 @@ LEVEL = "exploration"
 
 
 def run(ctx):
+    # proved half (engine A): the missing flag of every counter-based `reduce`, cell-wise, for all V/M/weights,
+    # and agreement of the three report formats on flag and value
+    from ..kvc import cell_check
+
+    proved = cell_check.run(ctx, "C04")
     c03.run(ctx, "C04")
+    ctx.coverage["proved_subobligations"] = proved
 
 
 def replay(path):
